@@ -34,6 +34,41 @@ def run(ctx):
     c18.check_cli_resolver(ctx_rule(ctx, "R19.4"))
     output_files(ctx)
     key_value_flags(ctx)
+    package_ref_parse(ctx)
+
+
+def package_ref_parse(ctx):
+    """R19.4 `plug-ref`: an argument of `wac plug` is a registry reference only if its part before `@` is a valid package name;
+    only then can a bad version be an error — otherwise it is a local path (which may well contain `@`).  The `invalid
+    version` error is constructed only under the Ok edge of PackageName::new."""
+    db, prov = ctx.db, ctx.prov
+    n = 0
+    for f in db.fns.values():
+        if f.crate not in ("wac_cli", "wac.bin") or "PackageRef" not in f.id or "from_str" not in f.id:
+            continue
+        cfg = CFG(f)
+        names = [t for t in f.calls() if (t.path or "").endswith("PackageName::new")]
+        bails = [t for t in f.calls() if "anyhow" in (t.path or "") and any("bail" in m or "anyhow" in m for m in t.mac)]
+        if not names or not bails:
+            continue
+        import tables
+        ok_targets = set()
+        for b in f.blocks:
+            if b.term.k != "switch":
+                continue
+            sl = prov.slice(f, Operand(b.term.j["discr"]))
+            if any(x in names for _, x in sl.calls) and any(a.endswith("result::Result") for a in sl.discr):
+                for v, tg in b.term.j["targets"]:
+                    if v == 0:
+                        ok_targets.add(tg)
+        for t in bails:
+            n += 1
+            ok = any(cfg.dominates(x, t.bb) for x in ok_targets)
+            ctx.ob("R19.4", "plug-ref|invalid-version-needs-valid-name", ok,
+                   "`invalid version` is reported only when the part before `@` is a package name" if ok else
+                   "`invalid version` can be reported although the part before `@` is not a package name: a local path that contains `@` is rejected instead of being used as a path",
+                   site="%s in %s" % (t.span, f.id))
+    ctx.ob("R19.4", "plug-ref-sites", n >= 1, "version errors in PackageRef::from_str: %d" % n, nontrivial=False)
 
 
 def output_files(ctx):
@@ -145,6 +180,13 @@ def compose(ctx):
             ctx.ob("R19.2", "bytes|%s@%d" % (t.path.rsplit("::", 1)[1], ordinal(f, t)), ok, "the written bytes are the encode result (text form with -t)" if ok else
                    "the written bytes do not originate in the encode result", site="%s in %s" % (t.span, f.id))
         ctx.ob("R19.2", "outputs", len(outs) == 2, "output sinks (file, stdout): %d" % len(outs), nontrivial=False)
+        # `-t` converts the output itself: the text form (print_bytes) can reach *every* sink, the file as well as stdout
+        for t in outs:
+            sl = prov.slice(f, t.args[-1])
+            has_text = sl.has_call("wasmprinter::print_bytes")
+            ctx.ob("R19.2", "text-reaches|%s@%d" % (t.path.rsplit("::", 1)[1], ordinal(f, t)), has_text,
+                   "with -t this sink receives the text form" if has_text else
+                   "this sink can only receive the binary encoding: with `-t` (and this sink) the bytes written differ from what `-t` prints elsewhere", site="%s in %s" % (t.span, f.id))
         pb = [t for t in f.calls() if (t.path or "").endswith("wasmprinter::print_bytes")]
         okp = bool(pb) and all(any(x is e for _, x in prov.slice(f, t.args[0]).calls) for t in pb)
         # guarded by self.wat
